@@ -584,6 +584,16 @@ type c16World struct {
 	// persist is the cumulative model: latest value of every configuration topic over
 	// all processes that saved into the directory under consideration.
 	nUnchanged, nTickerSaves, nTimerSaves int
+	// ENVIRONMENT of the run (drawn once, the same for every process of the run, nominal runs
+	// included): the directory for temporary files ($TMPDIR of the processes) is a file system
+	// of its own (a tmpfs /tmp, TMPDIR=/dev/shm), so a rename or hard link between it and the
+	// home directory tree fails with EXDEV. tmpDir is the temp directory of the process that
+	// runs now (one per home directory, next to it), nExdev counts the operations refused.
+	tmpOtherFS bool
+	tmpDir     string
+	tmpSaved   string
+	nExdev     int
+	envCheck   bool
 }
 
 // c16Gen is one process ("run of dastard").
@@ -652,13 +662,59 @@ func (w *c16World) newDir(name string) string {
 	return d
 }
 
+// setHome gives the process that starts next its environment variables: HOME, and TMPDIR =
+// a directory of its own next to the home directory (the machine's temp directory; it goes
+// with the home directory, so a directory restored for another crash point of C16b comes
+// with an empty one).
+func (w *c16World) setHome(home string) {
+	c16Setenv("HOME", home)
+	w.tmpDir = home + ".tmpdir"
+	c16RawMkdirAll(w.tmpDir)
+	c16Setenv("TMPDIR", w.tmpDir)
+}
+
+// c16Under tells whether path lies in the directory tree dir.
+func c16Under(path, dir string) bool {
+	if a, err := filepath.Abs(path); err == nil {
+		path = a
+	}
+	path = filepath.Clean(path)
+	return path == dir || strings.HasPrefix(path, dir+string(filepath.Separator))
+}
+
+// crossDevice is the run's map of file systems for simrt's rename and link shims: the temp
+// directory of the running process is one file system, everything else (the home directory
+// tree with ~/.dastard) another.
+func (w *c16World) crossDevice(oldpath, newpath string) bool {
+	if !w.tmpOtherFS || w.tmpDir == "" {
+		return false
+	}
+	if c16Under(oldpath, w.tmpDir) == c16Under(newpath, w.tmpDir) {
+		return false
+	}
+	w.nExdev++
+	if !w.envCheck {
+		// not reached by a program that keeps its files in one directory
+		simrt.Hit("process-under-test-is-refused-a-rename-or-link-with-EXDEV")
+	}
+	return true
+}
+
+// envNote is appended to violation texts when the environment matters for reading them.
+func (w *c16World) envNote() string {
+	if !w.tmpOtherFS {
+		return ""
+	}
+	return fmt.Sprintf("\n[environment of this run: the temp directory of the process ($TMPDIR) is a file system of its own; %d rename/link operation(s) between it and the home directory were refused with EXDEV]", w.nExdev)
+}
+
 func c16Dot(home string) string  { return filepath.Join(home, ".dastard") }
 func c16Main(home string) string { return filepath.Join(home, ".dastard", "config.yaml") }
 
 // startProcess runs the real start-up on home and launches the updater task.
 func (w *c16World) startProcess(home string, base map[string]interface{}) *c16Gen {
 	g := &c16Gen{w: w, home: home, abort: make(chan struct{}), lastPub: map[string]string{}, base: base}
-	c16Setenv("HOME", home)
+	w.setHome(home)
 	viper.Reset()
 	if err := w.startup(); err != nil {
 		simrt.Fail("C16.startup", "startup-fails", "start-up (setupViper) of the process under test failed on %s %v: %v", c16Dot(home), c16RawList(c16Dot(home)), err)
@@ -1072,6 +1128,8 @@ func (w *c16World) cleanup() {
 		close(g.abort)
 	}
 	simrt.SetFS(nil)
+	simrt.SetCrossDevice(nil)
+	c16Setenv("TMPDIR", w.tmpSaved)
 }
 
 // stop ends the process in an orderly way (the abort channel, as main does on exit).
@@ -1125,7 +1183,7 @@ func (g *c16Gen) rejAt(n int) map[string]bool {
 
 // evalDir runs the next start-up on a home directory and the restore sequence.
 func (w *c16World) evalDir(home string, nchan int) (*c16Restored, error) {
-	c16Setenv("HOME", home)
+	w.setHome(home)
 	viper.Reset()
 	if err := w.startup(); err != nil {
 		return nil, err
@@ -1168,7 +1226,7 @@ func (w *c16World) fail(rule, sig, format string, args ...interface{}) {
 		}
 		return
 	}
-	simrt.Fail(rule, sig, format, args...)
+	simrt.Fail(rule, sig, "%s%s", fmt.Sprintf(format, args...), w.envNote())
 }
 
 func (w *c16World) latestSig() string {
@@ -1315,7 +1373,51 @@ func c16Setup(env *simrt.Env, startup func() error) *c16World {
 	for _, reset := range c16ProcessStateResets {
 		reset()
 	}
-	return &c16World{env: env, startup: startup}
+	w := &c16World{env: env, startup: startup, tmpSaved: c16Getenv("TMPDIR")}
+	// the environment: where the temp directory lives
+	if simrt.Draw(2) == 1 {
+		w.tmpOtherFS = true
+		simrt.SetCrossDevice(w.crossDevice)
+		simrt.Hit("env:tmpdir-is-another-file-system")
+		env.Op("environment: $TMPDIR is a file system of its own (rename/link between it and the home directory fails with EXDEV)")
+		w.checkEnvModel()
+	} else {
+		simrt.SetCrossDevice(nil)
+		simrt.Hit("env:tmpdir-on-the-file-system-of-home")
+		env.Op("environment: $TMPDIR and the home directory are on one file system")
+	}
+	return w
+}
+
+// checkEnvModel makes sure the environment is in force before the program runs in it: an
+// interposed rename and an interposed hard link from the temp directory into a home
+// directory are refused with EXDEV (as *os.LinkError) and leave the files alone, and a
+// rename inside the home directory works.
+func (w *c16World) checkEnvModel() {
+	home := w.newDir("envcheck")
+	w.setHome(home)
+	w.envCheck = true
+	defer func() { w.envCheck = false }()
+	src, dst, dst2 := filepath.Join(w.tmpDir, "probe.tmp"), filepath.Join(home, "probe"), filepath.Join(home, "probe2")
+	if err := c16RawWrite(src, []byte("x")); err != nil {
+		simrt.Fail("harness.fs", "harness:write", "%v", err)
+	}
+	bad := func(err error) bool {
+		le, ok := err.(*os.LinkError)
+		return !ok || le.Err != syscall.EXDEV
+	}
+	if err := simrt.OsRename(src, dst); bad(err) || c16RawExists(dst) || !c16RawExists(src) {
+		simrt.Fail("harness.env", "harness:cross-device-model-not-in-force", "rename %s -> %s returned %v", src, dst, err)
+	}
+	if err := simrt.OsLink(src, dst); bad(err) || c16RawExists(dst) {
+		simrt.Fail("harness.env", "harness:cross-device-model-not-in-force", "link %s -> %s returned %v", src, dst, err)
+	}
+	c16RawWrite(dst, []byte("y"))
+	if err := simrt.OsRename(dst, dst2); err != nil || !c16RawExists(dst2) {
+		simrt.Fail("harness.env", "harness:cross-device-model-not-in-force", "rename %s -> %s inside the home directory returned %v", dst, dst2, err)
+	}
+	w.nExdev = 0
+	simrt.Hit("env:cross-device-rename-and-link-refused-with-EXDEV")
 }
 
 // c16SaveWait is how long the harness waits for a change to be saved. The updater saves
